@@ -1,6 +1,7 @@
 package astisub
 
 import (
+	"bufio"
 	"context"
 	"errors"
 	"fmt"
@@ -335,7 +336,7 @@ type TeletextOptions struct {
 func ReadFromTeletext(r io.Reader, o TeletextOptions) (s *Subtitles, err error) {
 	// Init
 	s = &Subtitles{}
-	var dmx = astits.NewDemuxer(context.Background(), r)
+	var dmx = astits.NewDemuxer(context.Background(), newTeletextReader(r))
 
 	// Get the teletext PID
 	var pid uint16
@@ -408,6 +409,40 @@ func ReadFromTeletext(r io.Reader, o TeletextOptions) (s *Subtitles, err error) 
 		p.parse(s, cd, firstTime)
 	}
 	return
+}
+
+// teletextReader makes sure every read fills the buffer unless the stream ends: the demuxer detects the packet size
+// with a single read and fails if the reader delivers fewer bytes than requested
+type teletextReader struct {
+	r io.Reader
+}
+
+func (r *teletextReader) Read(p []byte) (n int, err error) {
+	if n, err = io.ReadFull(r.r, p); err == io.ErrUnexpectedEOF {
+		err = nil
+	}
+	return
+}
+
+// teletextReadSeeker is a teletextReader that can be rewinded by the demuxer
+type teletextReadSeeker struct {
+	teletextReader
+	s io.Seeker
+}
+
+func (r *teletextReadSeeker) Seek(offset int64, whence int) (int64, error) {
+	return r.s.Seek(offset, whence)
+}
+
+func newTeletextReader(r io.Reader) io.Reader {
+	// The demuxer peeks into this reader instead of reading it
+	if _, ok := r.(*bufio.Reader); ok {
+		return r
+	}
+	if s, ok := r.(io.Seeker); ok {
+		return &teletextReadSeeker{teletextReader: teletextReader{r: r}, s: s}
+	}
+	return &teletextReader{r: r}
 }
 
 // TODO Add tests
